@@ -151,8 +151,32 @@ pub fn run_scenario(sc: &Scenario) -> Judged {
             }
         }
     }
-    let (_, suf0) = reference.unwrap();
+    let (w0, suf0) = reference.unwrap();
     j.sim_suffix_transcript = suf0.clone();
+    // the same script under the first key set on a machine a million times slower (1 ms of
+    // virtual time per node, 2 ms per clock read): depth-limited output must not notice
+    if !sc.key_seeds.is_empty() {
+        let mut st = sim_state(sc.key_seeds[0], &sc.forced, sc.node_cap);
+        st.clock.cost_node_ns = 1_000_000;
+        st.clock.cost_read_ns = 2_000_000;
+        st.ev("cfg slow clock");
+        let rep = run_script(st, full.clone());
+        j.evaluations += 1;
+        j.log_hash = fnv1a(j.log_hash, &rep.st.borrow().log_hash.to_le_bytes());
+        j.probes.add("slow_clock_twin_runs", 1);
+        if matches!(rep.outcome, Outcome::Exit(0) | Outcome::Returned) {
+            let whole = transcript_of(&rep.exchanges);
+            let suf = transcript_of(&rep.exchanges[marker.min(rep.exchanges.len())..]);
+            let differs = if prefix_clocked { suf != suf0 } else { whole != w0 };
+            if differs {
+                j.violations.push((
+                    "output_depends_on_the_clock".into(),
+                    format!("same script, same keys, clock 1 ms per node instead of 0: {}", if prefix_clocked { first_diff(&suf0, &suf) } else { first_diff(&w0, &whole) }),
+                ));
+                return j;
+            }
+        }
+    }
     if has_prefix {
         // fresh process, suffix only
         let mut alone = sc.suffix.clone();
@@ -250,7 +274,11 @@ fn gen_game_lines(rng: &mut Rng, clocked: bool, out: &mut Vec<String>, forced: &
         }
         let p = &ps[k];
         out.push(l);
-        if clocked && rng.chance(1, 2) {
+        if clocked && rng.chance(1, 6) {
+            // a budget that is gone at once (whatever the handler keeps of it must not
+            // reach a later depth-limited go)
+            out.push(rng.pick(&["go movetime 0", "go wtime 3000 btime 3000", "go wtime 0 btime 0 winc 0 binc 0"]).to_string());
+        } else if clocked && rng.chance(1, 2) {
             out.push(format!("go movetime {}", 100_000_000u64));
             forced.push((*search_ordinal, rng.log_range(1, 4000)));
         } else {
@@ -517,7 +545,7 @@ pub fn run(ctx: &Ctx) -> i32 {
     });
     let ev = Evidence {
         level: "exploration",
-        rule: "One case = one script pair: an adversarial prefix (0-3 games, clock-limited searches interrupted at seeded reads, depth-limited searches, with/without ucinewgame, standard commands the engine ignores such as stop/ponderhit/setoption at seeded places; one game in four has a history with planted repetitions) and a depth-limited suffix (1-2 games, depth 1..4, sometimes a go before any position command, in one case of four the game of the prefix continued after ucinewgame with the same start and move list; one case in forty is a depth 5-6 search of several hundred thousand nodes, half of them followed by three more depth-5 searches along the same game without ucinewgame; one case per 1300 runs two depth-7 searches in one game (millions of nodes, a table of more than 10^5 entries)). Runs: prefix+ucinewgame+suffix under three key seeds (transcripts of info/bestmove lines minus time/nps must be identical; the whole transcript when the prefix has no clocked go, else the part after ucinewgame), and the suffix alone in a fresh process (must equal the part after ucinewgame). One case in eight is also run twice on the real binary (two real key draws) and compared with the simulation. Evaluations = simulated processes; all cases are non-trivial (each contains at least one search).".into(),
+        rule: "One case = one script pair: an adversarial prefix (0-3 games, clock-limited searches interrupted at seeded reads, depth-limited searches, with/without ucinewgame, standard commands the engine ignores such as stop/ponderhit/setoption at seeded places; one game in four has a history with planted repetitions) and a depth-limited suffix (1-2 games, depth 1..4, sometimes a go before any position command, in one case of four the game of the prefix continued after ucinewgame with the same start and move list; one case in forty is a depth 5-6 search of several hundred thousand nodes, half of them followed by three more depth-5 searches along the same game without ucinewgame; one case per 1300 runs two depth-7 searches in one game (millions of nodes, a table of more than 10^5 entries)). Runs: prefix+ucinewgame+suffix under three key seeds (transcripts of info/bestmove lines minus time/nps must be identical; the whole transcript when the prefix has no clocked go, else the part after ucinewgame), the same under the first key set with a clock a million times slower (1 ms of virtual time per node; depth-limited output must not notice), and the suffix alone in a fresh process (must equal the part after ucinewgame). Prefixes also contain budgets that are gone at once (go movetime 0, clocks below the reserve). One case in eight is also run twice on the real binary (two real key draws) and compared with the simulation. Evaluations = simulated processes; all cases are non-trivial (each contains at least one search).".into(),
         extra: {
             let mut m = serde_json::Map::new();
             m.insert("real_binary_available".into(), json!(real_bin.is_some()));
